@@ -173,16 +173,42 @@ def resolve_pass(manifest):
     leftover_check(body, "pass_body")
     if "->" in re.sub(r"this_->|directive->cls", "", body) and re.search(r"\w->\w+\(", body):
         raise ExtractionError("resolveLabels pass body: unconverted member call left: %r" % re.search(r"\w+->\w+\(", body).group(0))
-    # outer structure: while (changed) { changed = false; unaligned = nullptr; int byteOffset = 0; for ... ; if (firstPass) {...} }  if (unaligned) throw
+    # outer structure, compared piecewise with the one the pass contract was written for.  The statements at the top of
+    # the while body (the pass entry) are extracted and executed by the base-case harnesses, so dropping or adding one of
+    # them is decided by the proof instead of aborting the extraction.
     outer = strip_comments(rl[:m.start()] + "FOR_LOOP;" + rl[rb + 1:])
     outer = " ".join(outer.split())
-    want = ("{ bool firstPass = true; bool changed = true; Directive *unaligned = nullptr; while (changed) { changed = false; unaligned = nullptr; "
-            "int byteOffset = 0; FOR_LOOP; if (firstPass) { firstPass = false; changed = true; } } "
-            "if (unaligned) { throw Error(unaligned->getLocation(), \"absolute label reference is not word aligned\"); } }")
-    if outer != want:
-        raise ExtractionError("resolveLabels: outer structure differs from the one the pass contract was written for:\n  found   %s\n  expected %s" % (outer, want))
-    manifest.append({"unit": "CodeGen::resolveLabels outer structure", "text": outer})
-    return "static int pass_body(Directive *directive) " + body.rstrip()[:-1] + "  return 0;\n}\n"
+    mw = re.search(r"while \(changed\) \{", outer)
+    if not mw or not outer.startswith("{ ") or not outer.endswith(" }"):
+        raise ExtractionError("resolveLabels: outer `while (changed) {` loop not found: %s" % outer)
+    wb = mw.end() - 1
+    we = match_close(outer, wb)
+    pre = outer[2:mw.start()].strip()
+    wbody = outer[wb + 1:we].strip()
+    post = outer[we + 1:-2].strip()
+    if "FOR_LOOP;" not in wbody:
+        raise ExtractionError("resolveLabels: inner loop is not directly inside `while (changed)`")
+    entry, after = [x.strip() for x in wbody.split("FOR_LOOP;", 1)]
+    want_pre = {"bool firstPass = true;", "bool changed = true;", "Directive *unaligned = nullptr;"}
+    got_pre = set(x.strip() + ";" for x in pre.split(";") if x.strip())
+    if got_pre != want_pre:
+        raise ExtractionError("resolveLabels: declarations before the loop differ: found %s expected %s" % (sorted(got_pre), sorted(want_pre)))
+    if after != "if (firstPass) { firstPass = false; changed = true; }":
+        raise ExtractionError("resolveLabels: statements after the inner loop differ: %r" % after)
+    if post != 'if (unaligned) { throw Error(unaligned->getLocation(), "absolute label reference is not word aligned"); }':
+        raise ExtractionError("resolveLabels: statements after the outer loop differ: %r" % post)
+    estmts = [x.strip() for x in entry.split(";") if x.strip()]
+    centry = []
+    for st in estmts:
+        me = re.fullmatch(r"(?:int )?(changed|unaligned|byteOffset) = (false|true|nullptr|0)", st)
+        if not me:
+            raise ExtractionError("resolveLabels: pass-entry statement not understood: %r" % st)
+        centry.append("%s = %s;" % (me.group(1), {"nullptr": "NULL"}.get(me.group(2), me.group(2))))
+    if "byteOffset = 0;" not in centry:
+        raise ExtractionError("resolveLabels: `int byteOffset = 0;` is not declared at pass entry")
+    manifest.append({"unit": "CodeGen::resolveLabels outer structure", "text": outer, "pass_entry": centry})
+    pass_entry = "#define PASS_ENTRY() do { %s } while (0)\n" % " ".join(centry)
+    return pass_entry + "static int pass_body(Directive *directive) " + body.rstrip()[:-1] + "  return 0;\n}\n"
 
 
 EMIT_RULES = [
